@@ -365,6 +365,11 @@ def wl_local(ctx, P, tz, rng, kw, ignoretz):
     if std == 'EST':
         cases += [(D.datetime(2011, 11, 6, 1, 30), 'EST', -18000, 'local-ambiguous-std'),
                   (D.datetime(2011, 11, 6, 1, 30), 'EDT', -14400, 'local-ambiguous-dst')]
+    # a wall time the local zone skips: the text's wall time is kept (as with ignoretz), the zone attached - no conversion
+    if std == 'EST':
+        cases += [(D.datetime(2011, 3, 13, 2, 30), 'EST', None, 'local-gap'), (D.datetime(2011, 3, 13, 2, 30), 'EDT', None, 'local-gap')]
+    if std == 'GMT':
+        cases += [(D.datetime(2011, 3, 27, 1, 30), 'GMT', None, 'local-gap'), (D.datetime(2011, 3, 27, 1, 30), 'BST', None, 'local-gap')]
     if std == 'GMT':
         cases += [(summer, 'GMT', 0, 'utc-name-in-local-summer'), (D.datetime(2011, 10, 30, 1, 30), 'GMT', 0, 'local-ambiguous-std'),
                   (D.datetime(2011, 10, 30, 1, 30), 'BST', 3600, 'local-ambiguous-dst')]
@@ -387,13 +392,17 @@ def wl_local(ctx, P, tz, rng, kw, ignoretz):
             bad.append('ignoretz returned aware')
     elif v.tzinfo is None:
         bad.append('naive for local zone name %s' % name)
+    elif off is None:
+        # (in the skipped hour the local zone is not on 'GMT': the UTC-designator reading applies to that name, same wall time)
+        if not (isinstance(v.tzinfo, tz.tzlocal) or (name in ('GMT', 'UTC') and v.tzinfo is tz.UTC)):
+            bad.append('local name resolved to %r' % (v.tzinfo,))
     elif v.utcoffset() != D.timedelta(seconds=off):
         bad.append('offset %r expected %d' % (v.utcoffset(), off))
     elif label.startswith('local-') and not isinstance(v.tzinfo, tz.tzlocal):
         # local zone names come before the UTC designators in the documented order: 'GMT' in a British winter (or 'UTC'
         # under TZ=UTC) is the local zone, with its summer time half a year later
         bad.append('local name resolved to %r' % (v.tzinfo,))
-    elif label.startswith('local-') and v.tzname() != name:
+    elif label.startswith('local-') and label != 'local-gap' and v.tzname() != name:
         bad.append('tzname %r for text %r' % (v.tzname(), name))
     if bad:
         ctx.violation('zone-resolution', case, '; '.join(bad))
